@@ -34,10 +34,13 @@ THEOREMS = [
     "KrroodVerif.Pred.C12_calls_once_quirks",
     "KrroodVerif.Pred.C12_calls_once_partial",
     "KrroodVerif.Pred.C12_calls_once_fixed_partial",
+    "KrroodVerif.Pred.C12_knobs_history_irrelevant",
+    "KrroodVerif.Pred.C12_truth_is_current_call",
+    "KrroodVerif.Pred.C12_history",
     "KrroodVerif.Pred.C12_cex_positional",
     "KrroodVerif.Pred.C12_cex_shared",
 ]
-MODEL_FUNCTION = ("Pred.mergeArgs / Pred.dispatch / Pred.evalSym / Pred.run with Quirks.today "
+MODEL_FUNCTION = ("Pred.mergeArgs / Pred.dispatch / Pred.evalSym / Pred.run / Pred.runHistory with Drive.C12.codeQuirks "
                   "(Model/Predicate.lean); specification Pred.bind / Pred.spec")
 TRUSTED = [
     "Lean 4.33 kernel; axioms of each theorem listed under coverage.theorems",
@@ -52,7 +55,8 @@ ASSUMPTIONS = [
     "and_(HasType(v, T), c) evaluates c once per value of v with v bound; not_(c) complements c; set_of returns the "
     "bindings of the selected variables (C01/C02's subject, used here only as the frame around the call)",
     "only positional-or-keyword parameters (no *args/**kwargs/keyword-only/positional-only); arguments are query "
-    "variables with explicit domains or ordinary objects (no attribute chains); a variable is only ever read as an "
+    "variables with explicit domains, attribute / method-call / index expressions over ONE such variable, or ordinary "
+    "objects (no nested predicate calls, no expressions over two variables); a variable is only ever read as an "
     "argument of the call or of HasType, never as a comparator operand (a falsy bound value read by a comparator is "
     "finding F-C01-3)",
 ]
@@ -61,7 +65,12 @@ RULE = ("exhaustive small scope: every signature of arity 1..4 (quick) / 1..5 (t
         "variable/object pattern, for plain functions, methods and Predicate subclasses, with seeded domains, "
         "variable sharing, pre-bound variables, negation and keyword order; plus random cases of arity up to 5; plus a "
         "falsy-value stream (0, False, a falsy object, '', [] as domain values, literals and pre-bound arguments, "
-        "positively and under not_, deterministic small family + random shapes); "
+        "positively and under not_, deterministic small family + random shapes); plus a stateful stream: every "
+        "class-level knob of Predicate found by introspection (is_expensive, ...) drawn in every case, arguments "
+        "written as x.att / x.get() / x.items[0] / x.box.inner / x.plus(1, by=99) that hand fresh temporaries to the "
+        "callable, long domains after a binding conjunct, and histories: ONE query object evaluated, the candidate "
+        "objects mutated, evaluated again (up to 3 evaluations), every evaluation compared with the concrete calls in "
+        "its own world; "
         "non-trivial = the call is symbolic and the result set is neither empty nor every candidate binding, or the "
         "call is concrete with at least two parameters; distinct by case text")
 EXHAUSTIVE = True
@@ -74,10 +83,12 @@ NAMES = ["a", "b", "c", "d", "e"]
 class Spec:
     """Structured form of a case (payload)."""
 
-    def __init__(self, kind, params, pos, kw, doms, pre, neg, salt, mod, vals):
+    def __init__(self, kind, params, pos, kw, doms, pre, neg, salt, mod, vals, knobs=None, hist=None):
         self.kind = kind  # fn | method | pred
         self.params = params  # [(name, default or None)]
-        self.pos = pos  # [("l", n) | ("v", i)]
+        self.pos = pos  # [("l", n) | ("v", i) | ("a", i, k)]   ("a": variable i through accessor k, see ACCESSORS)
+        self.knobs = dict(knobs or {})  # class-level knob name -> True if the non-default alternative is set
+        self.hist = list(hist or [])  # [{oid: state}]: worlds in which the SAME query object is evaluated again
         self.kw = kw  # [(name, arg)]
         self.doms = doms  # {i: [values]}
         self.pre = pre  # [i]
@@ -88,14 +99,20 @@ class Spec:
 
     def line(self) -> str:
         def a(x):
-            return f"({x[0]} {x[1]})"
+            return f"(a {x[2]} {x[1]})" if x[0] == "a" else f"({x[0]} {x[1]})"
         ps = " ".join(f"({n})" if d is None else f"({n} {d})" for n, d in self.params)
         pos = " ".join(a(x) for x in self.pos)
         kw = " ".join(f"({n} {a(x)})" for n, x in self.kw)
         doms = " ".join("(" + " ".join(map(str, [i] + list(vs))) + ")" for i, vs in sorted(self.doms.items()))
         pre = " ".join(map(str, self.pre))
+        extra = ""
+        if self.knobs:
+            extra += " (knobs " + " ".join(f"({n} {'T' if v else 'F'})" for n, v in sorted(self.knobs.items())) + ")"
+        if self.hist:
+            extra += " (hist " + " ".join(
+                "(" + " ".join(f"({o} {st})" for o, st in sorted(wd.items())) + ")" for wd in self.hist) + ")"
         return (f"(call {self.kind} (params {ps}) (pos {pos}) (kw {kw}) (doms {doms}) (pre {pre}) "
-                f"(neg {'T' if self.neg else 'F'}) (body {self.salt} {self.mod}) (vals {self.vals}))"
+                f"(neg {'T' if self.neg else 'F'}) (body {self.salt} {self.mod}){extra} (vals {self.vals}))"
                 ).replace("( ", "(").replace(" )", ")")
 
     def written(self):
@@ -103,15 +120,15 @@ class Spec:
 
     def var_order(self) -> List[int]:
         out = []
-        for t, v in self.written():
-            if t == "v" and v not in out:
-                out.append(v)
+        for x in self.written():
+            if x[0] in ("v", "a") and x[1] not in out:
+                out.append(x[1])
         return out
 
     def tags(self) -> Tuple[str, ...]:
         w = self.written()
-        nv = sum(1 for t, _ in w if t == "v")
-        vs = [v for t, v in w if t == "v"]
+        nv = sum(1 for x in w if x[0] in ("v", "a"))
+        vs = [x[1] for x in w if x[0] in ("v", "a")]
         t = [self.kind, f"arity{len(self.params)}", f"dflt{sum(1 for _, d in self.params if d is not None)}",
              f"pos{len(self.pos)}", f"kw{len(self.kw)}",
              "concrete" if nv == 0 else ("mixed" if nv < len(w) else "allvar")]
@@ -132,6 +149,15 @@ class Spec:
             t.append("falsy-prebound")
         if any(a == ("l", 0) for a in w):
             t.append("falsy-literal")
+        for x in w:
+            if x[0] == "a":
+                t.append("accessor-" + ACCESSORS.get(x[2], ("?",))[0])
+        if any(x[0] == "a" for x in w):
+            t.append("accessor")
+        if self.hist:
+            t.append(f"history{len(self.hist)}")
+        for n, v in sorted(self.knobs.items()):
+            t.append(f"knob-{n}={'alt' if v else 'default'}")
         return tuple(t)
 
 
@@ -158,6 +184,8 @@ def parse_line(line: str) -> Spec:
     f = {x[0]: x[1:] for x in s[2:]}
 
     def arg(x):
+        if x[0] == "a":
+            return ("a", int(x[2]), int(x[1]))
         return (x[0], int(x[1]))
 
     params = [(p[0], int(p[1]) if len(p) > 1 else None) for p in f["params"]]
@@ -165,8 +193,10 @@ def parse_line(line: str) -> Spec:
     kw = [(x[0], arg(x[1])) for x in f["kw"]]
     doms = {int(d[0]): [int(v) for v in d[1:]] for d in f["doms"]}
     pre = [int(x) for x in f["pre"]]
+    knobs = {k[0]: k[1] == "T" for k in f.get("knobs", [])}
+    hist = [{int(o): int(st) for o, st in wd} for wd in f.get("hist", [])]
     return Spec(kind, params, pos, kw, doms, pre, f["neg"][0] == "T", int(f["body"][0]), int(f["body"][1]),
-                f.get("vals", ["obj"])[0])
+                f.get("vals", ["obj"])[0], knobs, hist)
 
 
 def mk_case(sp: Spec, origin: str) -> Case:
@@ -180,6 +210,71 @@ def revive(case: Case) -> Case:
         if not case.tags or case.tags == ("corpus",) or case.tags == ("finding",):
             case.tags = tuple(case.tags) + sp.tags()
     return case
+
+
+# ------------------------------------------------------------------------------------------- accessors, knobs
+
+ACCESSORS = {
+    # k: (name, how the expression is written on the query variable); the value passed is a FRESH temporary object
+    # whose number is state + 100*k (Lean: Pred.view)
+    1: ("attribute", lambda x: x.att),
+    2: ("method-call", lambda x: x.get()),
+    3: ("index", lambda x: x.items[0]),
+    4: ("attribute-chain", lambda x: x.box.inner),
+    5: ("method-call-args", lambda x: x.plus(1, by=99)),
+}
+OBJECT_FLAVOURS = ("obj", "fobj")  # candidates are objects with identity, mutable state and accessors
+
+
+def callable_knobs() -> Dict[str, Tuple[Any, Any]]:
+    """Every class-level knob a Predicate subclass can set, found by introspection of the CURRENT krrood tree:
+    ClassVar annotations and defaulted dataclass fields of Predicate and its bases -> (default, one alternative)."""
+    import dataclasses
+    import typing
+    from krrood.entity_query_language.predicate import Predicate
+    found: Dict[str, Any] = {}
+    for klass in reversed(Predicate.__mro__):
+        if klass is object:
+            continue
+        try:
+            hints = typing.get_type_hints(klass)
+        except Exception:  # noqa: BLE001
+            hints = dict(getattr(klass, "__annotations__", {}))
+        for name, h in hints.items():
+            is_classvar = typing.get_origin(h) is typing.ClassVar or str(h).startswith(("ClassVar", "typing.ClassVar"))
+            if is_classvar and name in klass.__dict__ and not name.startswith("__"):
+                found[name] = klass.__dict__[name]
+        if dataclasses.is_dataclass(klass):
+            for f in dataclasses.fields(klass):
+                if f.default is not dataclasses.MISSING:
+                    found[f.name] = f.default
+    out = {}
+    for name, d in found.items():
+        if isinstance(d, bool):
+            out[name] = (d, not d)
+        elif isinstance(d, int):
+            out[name] = (d, d + 1)
+        elif isinstance(d, float):
+            out[name] = (d, d + 1.0)
+        elif isinstance(d, str):
+            out[name] = (d, d + "x")
+        elif d is None:
+            out[name] = (d, True)
+    return out
+
+
+_KNOBS_CACHE: Optional[Dict[str, Tuple[Any, Any]]] = None
+
+
+def knobs_table() -> Dict[str, Tuple[Any, Any]]:
+    global _KNOBS_CACHE
+    if _KNOBS_CACHE is None:
+        try:
+            core.use_repo_sources()
+            _KNOBS_CACHE = callable_knobs()
+        except Exception:  # noqa: BLE001
+            _KNOBS_CACHE = {}
+    return _KNOBS_CACHE
 
 
 # ------------------------------------------------------------------------------------------- generation
@@ -208,7 +303,7 @@ def _call_shapes(n: int, nd: int):
 
 
 def _fill(rng, kind, n, nd, supplied, k, pattern, *, share=None, pre=None, neg=None, max_dom=3,
-          falsy=False, vals=None) -> Spec:
+          falsy=False, vals=None, p_acc=0.12, p_hist=0.1, dom_range=None) -> Spec:
     names = NAMES[:n]
     if rng.random() < 0.3:
         names = rng.sample(["a", "b", "c", "d", "obj", "other", "x_", "value", "name", "type_"], n)
@@ -250,7 +345,25 @@ def _fill(rng, kind, n, nd, supplied, k, pattern, *, share=None, pre=None, neg=N
     mod = rng.choice([2, 2, 3])
     if vals is None:
         vals = rng.choice(FALSY_FLAVOURS) if falsy else rng.choice(["obj", "obj", "int"])
-    return Spec(kind, params, pos, kw, doms, pre, neg, rng.randrange(0, mod), mod, vals)
+    if dom_range is not None and distinct:
+        # one long domain (temporaries are reused by CPython only after many candidates)
+        lo, hi = dom_range
+        doms[distinct[0]] = rng.sample(range(1, 40), rng.randrange(lo, hi + 1))
+        for i in distinct[1:]:
+            doms[i] = doms[i][:1]
+    knobs = {name: rng.random() < 0.5 for name in knobs_table()}
+    hist = []
+    if vals in OBJECT_FLAVOURS and distinct:
+        def acc(x):
+            return ("a", x[1], rng.randrange(1, len(ACCESSORS) + 1)) if x[0] == "v" and rng.random() < p_acc else x
+        pos = [acc(x) for x in pos]
+        kw = [(nm, acc(x)) for nm, x in kw]
+        if rng.random() < p_hist:
+            oids = sorted({o for i in distinct for o in doms[i]})
+            for _ in range(rng.choice([1, 1, 2])):
+                chosen = [o for o in oids if rng.random() < 0.7] or oids[:1]
+                hist.append({o: rng.randrange(0 if falsy else 1, 7) for o in chosen})
+    return Spec(kind, params, pos, kw, doms, pre, neg, rng.randrange(0, mod), mod, vals, knobs, hist)
 
 
 def _ncombos(doms, ids) -> int:
@@ -286,7 +399,65 @@ def generate(rng, tier, n):
         pattern = [rng.random() < 0.6 for _ in supplied]
         cases.append(mk_case(_fill(rng, kind, ar, nd, supplied, k, pattern, share=rng.random() < 0.5), "random"))
     cases.extend(_falsy_cases(rng, tier))
+    cases.extend(_stateful_cases(rng, tier))
     return cases
+
+
+def _stateful_cases(rng, tier) -> List[Case]:
+    """The truth value contributed is the concrete call on the CURRENT argument values, whatever knobs the callable
+    sets and whatever happened before: (a) one query object evaluated, candidates mutated, evaluated again (and again);
+    (b) arguments that are attribute / method-call / index expressions over the candidate, which hand FRESH temporaries
+    to the callable (CPython reuses their ids), with long domains and the call after a binding conjunct; every knob
+    setting found by introspection of Predicate."""
+    out: List[Case] = []
+    table = knobs_table()
+    settings: List[Dict[str, bool]] = [dict.fromkeys(table, False)]
+    for name in table:
+        settings.append({n: n == name for n in table})
+    if len(table) > 1:
+        settings.append(dict.fromkeys(table, True))
+    # (a) deterministic: kind x knob setting x negation x bound-before x accessor, two and three evaluations
+    for kind in ("fn", "method", "pred"):
+        for knobs in settings:
+            for neg in (False, True):
+                for pre in ([0], []):
+                    for k in range(0, len(ACCESSORS) + 1):
+                        fl = rng.choice(OBJECT_FLAVOURS)
+                        sp = _fill(rng, kind, 1, 0, [0], rng.randrange(0, 2), [True], share=False, pre=list(pre),
+                                   neg=neg, vals=fl, p_acc=0.0, p_hist=0.0)
+                        sp.doms = {0: [1, 2, 3]}
+                        if k:
+                            if sp.pos:
+                                sp.pos = [("a", 0, k)]
+                            else:
+                                sp.kw = [(sp.kw[0][0], ("a", 0, k))]
+                        sp.knobs = dict(knobs)
+                        sp.hist = [{1: 2, 2: 3, 3: 4}] + ([{1: 1, 2: 1}] if rng.random() < 0.5 else [])
+                        out.append(mk_case(sp, "exhaustive"))
+    n_rand = 500 if tier == "quick" else 4000
+    for j in range(n_rand):
+        kind = rng.choice(["fn", "method", "pred", "pred"])
+        ar = rng.randrange(1, 4)
+        nd = rng.randrange(0, ar + 1)
+        supplied, k = rng.choice([sh for sh in _call_shapes(ar, nd) if sh[0]])
+        pattern = [rng.random() < 0.7 for _ in supplied]
+        if not any(pattern):
+            pattern[0] = True
+        if j % 2 == 0:
+            # (a') random shapes with histories
+            sp = _fill(rng, kind, ar, nd, supplied, k, pattern, share=rng.random() < 0.3, neg=rng.random() < 0.4,
+                       vals=rng.choice(OBJECT_FLAVOURS), falsy=rng.random() < 0.3, p_acc=0.4, p_hist=1.0)
+            if sp.vals == "obj":
+                sp.doms = {i: [o or 6 for o in d] for i, d in sp.doms.items()}
+        else:
+            # (b) temporaries: long domain, accessor arguments, call after a binding conjunct
+            sp = _fill(rng, kind, ar, nd, supplied, k, pattern, share=False, neg=rng.random() < 0.3,
+                       vals=rng.choice(OBJECT_FLAVOURS), p_acc=0.9, p_hist=0.2, dom_range=(8, 20))
+            first = sp.var_order()[0]
+            if rng.random() < 0.85 and first not in sp.pre:
+                sp.pre = [first] + sp.pre
+        out.append(mk_case(sp, "random"))
+    return out
 
 
 def _falsy_cases(rng, tier) -> List[Case]:
@@ -331,6 +502,7 @@ def _falsy_cases(rng, tier) -> List[Case]:
 def nontrivial(case: Case, spec: str) -> bool:
     if spec.startswith("C "):
         return spec.count(",") >= 1
+    spec = spec.split(" ;; ")[-1]  # the last evaluation of the query object
     if spec.startswith("S log=["):
         log, rows = spec[len("S log=["):].split("] rows=[")
         nl = log.count("(")
@@ -361,7 +533,27 @@ def shrink(case: Case):
 
     add(lambda c: setattr(c, "neg", False))
     add(lambda c: setattr(c, "pre", []))
-    add(lambda c: setattr(c, "vals", "obj"))
+    add(lambda c: setattr(c, "hist", []))
+    if len(sp.hist) > 1:
+        add(lambda c: setattr(c, "hist", c.hist[:-1]))
+        add(lambda c: setattr(c, "hist", c.hist[1:]))
+    for name in sorted(sp.knobs):
+        if sp.knobs[name]:
+            add(lambda c, name=name: c.knobs.__setitem__(name, False))
+    if sp.knobs:
+        add(lambda c: setattr(c, "knobs", {}))
+    for j, x in enumerate(sp.pos):
+        if x[0] == "a":
+            add(lambda c, j=j: c.pos.__setitem__(j, ("v", c.pos[j][1])))
+    for j, (nm, x) in enumerate(sp.kw):
+        if x[0] == "a":
+            add(lambda c, j=j: c.kw.__setitem__(j, (c.kw[j][0], ("v", c.kw[j][1][1]))))
+    for h in range(len(sp.hist)):
+        for o in sorted(sp.hist[h]):
+            if len(sp.hist[h]) > 1:
+                add(lambda c, h=h, o=o: c.hist[h].pop(o))
+    if not sp.hist and not any(x[0] == "a" for x in sp.written()):
+        add(lambda c: setattr(c, "vals", "obj"))
     add(lambda c: (setattr(c, "salt", 0), setattr(c, "mod", 2)))
     # drop the last parameter if it is not supplied, or supplied by keyword / last positional
     def drop_last(c):
@@ -372,7 +564,7 @@ def shrink(case: Case):
             c.pos.pop()
         c.kw = [(n, a) for n, a in c.kw if n != name]
         c.params.pop()
-        used = {v for t, v in c.written() if t == "v"}
+        used = {x[1] for x in c.written() if x[0] in ("v", "a")}
         c.doms = {i: d for i, d in c.doms.items() if i in used}
         c.pre = [i for i in c.pre if i in used]
     add(drop_last)
@@ -383,26 +575,26 @@ def shrink(case: Case):
             if dict(c.params)[name] is None:
                 return False
             del c.kw[j]
-            used = {v for t, v in c.written() if t == "v"}
+            used = {x[1] for x in c.written() if x[0] in ("v", "a")}
             c.doms = {i: d for i, d in c.doms.items() if i in used}
             c.pre = [i for i in c.pre if i in used]
         add(drop_kw)
     # variable -> literal
     for j in range(len(sp.pos)):
         def lit_pos(c, j=j):
-            if c.pos[j][0] != "v":
+            if c.pos[j][0] not in ("v", "a"):
                 return False
             c.pos[j] = ("l", 1)
-            used = {v for t, v in c.written() if t == "v"}
+            used = {x[1] for x in c.written() if x[0] in ("v", "a")}
             c.doms = {i: d for i, d in c.doms.items() if i in used}
             c.pre = [i for i in c.pre if i in used]
         add(lit_pos)
     for j in range(len(sp.kw)):
         def lit_kw(c, j=j):
-            if c.kw[j][1][0] != "v":
+            if c.kw[j][1][0] not in ("v", "a"):
                 return False
             c.kw[j] = (c.kw[j][0], ("l", 1))
-            used = {v for t, v in c.written() if t == "v"}
+            used = {x[1] for x in c.written() if x[0] in ("v", "a")}
             c.doms = {i: d for i, d in c.doms.items() if i in used}
             c.pre = [i for i in c.pre if i in used]
         add(lit_kw)
@@ -447,6 +639,50 @@ class _F(_V):
         return self.code != 0
 
 
+class _Holder:
+    __slots__ = ("inner",)
+
+    def __init__(self, inner):
+        self.inner = inner
+
+
+def _candidate_class(base):
+    """Candidate objects of the object flavours: a fixed identity `oid`, a mutable state `code` (what the body and the
+    accessors read) and accessors that hand out FRESH temporaries numbered state + 100*k."""
+
+    class _Cand(base):
+        __slots__ = ("oid",)
+
+        def __init__(self, oid):
+            base.__init__(self, oid)
+            self.oid = oid
+
+        @property
+        def att(self):
+            return base(self.code + 100)
+
+        def get(self):
+            return base(self.code + 200)
+
+        @property
+        def items(self):
+            return [base(self.code + 300)]
+
+        @property
+        def box(self):
+            return _Holder(base(self.code + 400))
+
+        def plus(self, n, by=0):
+            return base(self.code + 500 + (n - 1) + (by - 99))
+
+        def __repr__(self):
+            return f"Cand{self.oid}:{self.code}"
+
+    return _Cand
+
+
+_CAND = {"obj": _candidate_class(_V), "fobj": _candidate_class(_F)}
+
 FALSY_FLAVOURS = ["int", "intF", "fobj", "str", "list"]
 """value flavours in which number 0 is a falsy Python value: 0, False, a falsy object, "", []"""
 
@@ -458,11 +694,32 @@ class _World:
         from krrood.entity_query_language.symbolic import SymbolicExpression
         self.sp = sp
         self.SE = SymbolicExpression
-        self.log: List[Tuple[Any, ...]] = []
+        self.log: List[Tuple[str, ...]] = []  # rendered AT CALL TIME (candidates are mutated later)
         self.returned: List[Any] = []
         self.pool: Dict[int, Any] = {}
+        self.cands: Dict[int, Any] = {}
         self.var_of: Dict[int, int] = {}  # id(variable object) -> variable number
-        self.T = {"obj": _V, "int": int, "intF": int, "fobj": _F, "str": str, "list": list}[sp.vals]
+        self.T = {"obj": _CAND["obj"], "int": int, "intF": int, "fobj": _CAND["fobj"], "str": str,
+                  "list": list}[sp.vals]
+
+    def cand(self, oid: int):
+        """the candidate (domain element) with this identity; in the object flavours a mutable object distinct from
+        every literal / default, otherwise the plain value"""
+        if self.sp.vals not in OBJECT_FLAVOURS:
+            return self.val(oid)
+        if oid not in self.cands:
+            self.cands[oid] = _CAND[self.sp.vals](oid)
+        return self.cands[oid]
+
+    def set_world(self, world: Dict[int, int]) -> None:
+        for oid, c in self.cands.items():
+            c.code = world.get(oid, oid)
+
+    def show_id(self, v) -> str:
+        """a selected candidate, by identity"""
+        if self.sp.vals in OBJECT_FLAVOURS:
+            return str(v.oid) if type(v) is _CAND[self.sp.vals] else "other:" + type(v).__name__
+        return self.show(v)
 
     def val(self, code: int):
         """the Python value with this number (one object per number and case)"""
@@ -516,7 +773,7 @@ class _World:
 
     def body(self, values: Tuple[Any, ...]):
         """the function body: record, compute, return"""
-        self.log.append(values)
+        self.log.append(tuple(self.show(v) for v in values))
         r = (self.sp.salt + sum((j + 1) * self.code(v) for j, v in enumerate(values))) % self.sp.mod
         style = (self.sp.salt + len(values)) % 3
         out: Any = r if style == 0 else (r != 0 if style == 1 else (None if r == 0 else self.val(r)))
@@ -541,14 +798,20 @@ def _build(w: _World):
         else:
             ns[f"_d{j}"] = w.val(d)
             sig.append(f"{n}=_d{j}")
+    table = knobs_table()
+    knob_values = {n: (table[n][1] if on else table[n][0]) if n in table else on for n, on in sp.knobs.items()}
     if sp.kind == "fn":
         src = f"def target({', '.join(sig)}):\n    return _body(({', '.join(names)},))\n"
         exec(src, ns)
+        for n, v in knob_values.items():
+            setattr(ns["target"], n, v)
         f = symbolic_function(ns["target"])
         return f, None
     if sp.kind == "method":
         src = f"def target({', '.join(['self'] + sig)}):\n    return _body((self, {', '.join(names)},))\n"
         exec(src, ns)
+        for n, v in knob_values.items():
+            setattr(ns["target"], n, v)
         K = type("K", (_Recv,), {"target": symbolic_function(ns["target"])})
         k = K()
         return k.target, k
@@ -568,7 +831,8 @@ def _build(w: _World):
         def __call__(self):
             return w.body(tuple(getattr(self, n) for n in names))
 
-        P = dataclasses.make_dataclass("P", fields, bases=(Predicate,), eq=False, namespace={"__call__": __call__})
+        P = dataclasses.make_dataclass("P", fields, bases=(Predicate,), eq=False,
+                                       namespace={"__call__": __call__, **knob_values})
         return P, None
     raise ValueError(sp.kind)
 
@@ -583,12 +847,16 @@ def _one(sp: Spec) -> str:
         order = sp.var_order()
         variables = {}
         for i in order:
-            v = let(w.T, [w.val(c) for c in sp.doms[i]])
+            v = let(w.T, [w.cand(c) for c in sp.doms[i]])
             variables[i] = v
             w.var_of[id(v)] = i
 
         def arg(x):
-            return variables[x[1]] if x[0] == "v" else w.val(x[1])
+            if x[0] == "v":
+                return variables[x[1]]
+            if x[0] == "a":
+                return ACCESSORS[x[2]][1](variables[x[1]])
+            return w.val(x[1])
 
         pos = [arg(x) for x in sp.pos]
         kw = {n: arg(x) for n, x in sp.kw}
@@ -606,22 +874,29 @@ def _one(sp: Spec) -> str:
                 return f"C calls={len(w.log)}"
             if c is not w.returned[0]:
                 return "C notplain"
-            return "C (" + ",".join(w.show(v) for v in w.log[0]) + ") " + ("T" if c else "F")
+            return "C (" + ",".join(w.log[0]) + ") " + ("T" if c else "F")
         atctor = len(w.log)
         w.log.clear()
         cond = not_(c) if sp.neg else c
         conds = [HasType(variables[p], w.T) for p in sp.pre] + [cond]
         cond = and_(*conds) if len(conds) > 1 else cond
         sel = [variables[i] for i in order]
-        head = "S " + (f"atctor={atctor} " if atctor else "")
-        try:
-            rows = []
-            for r in an(set_of(sel, cond)).evaluate():
-                rows.append("(" + ",".join(w.show(r[s]) for s in sel) + ")")
-        except Exception as e:  # noqa: BLE001
-            return head + "exc:" + type(e).__name__
-        log = sorted("(" + ",".join(w.show(v) for v in t) + ")" for t in w.log)
-        return head + "log=[" + ",".join(log) + "] rows=[" + ",".join(sorted(set(rows))) + "]"
+        query = an(set_of(sel, cond))  # ONE query object, evaluated once per world
+        outs = []
+        for n_eval, world in enumerate([{}] + list(sp.hist)):
+            head = "S " + (f"atctor={atctor} " if atctor and n_eval == 0 else "")
+            w.set_world(world)
+            w.log.clear()
+            try:
+                rows = []
+                for r in query.evaluate():
+                    rows.append("(" + ",".join(w.show_id(r[s]) for s in sel) + ")")
+            except Exception as e:  # noqa: BLE001
+                outs.append(head + "exc:" + type(e).__name__)
+                continue
+            log = sorted("(" + ",".join(t) + ")" for t in w.log)
+            outs.append(head + "log=[" + ",".join(log) + "] rows=[" + ",".join(sorted(set(rows))) + "]")
+        return " ;; ".join(outs)
     except Exception as e:  # noqa: BLE001
         return "harness-exc:" + type(e).__name__ + ":" + str(e)[:80]
 
@@ -641,9 +916,15 @@ def oracle(sp: Spec) -> str:
     def body(t):
         return (sp.salt + sum((j + 1) * v for j, v in enumerate(t))) % sp.mod
 
-    def call(env):
+    def call(env, world=None):
+        world = world or {}
+
         def a(x):
-            return env[x[1]] if x[0] == "v" else x[1]
+            if x[0] == "v":
+                return world.get(env[x[1]], env[x[1]])
+            if x[0] == "a":
+                return world.get(env[x[1]], env[x[1]]) + 100 * x[2]
+            return x[1]
         ba = sig.bind(*(recv + [a(x) for x in sp.pos]), **{n: a(x) for n, x in sp.kw})
         ba.apply_defaults()
         return tuple(ba.arguments[p.name] for p in params)
@@ -656,14 +937,17 @@ def oracle(sp: Spec) -> str:
     if not order:
         t = call({})
         return "C (" + ",".join(map(str, t)) + ") " + ("T" if body(t) else "F")
-    log, rows = [], set()
-    for combo in itertools.product(*[sp.doms[i] for i in order]):
-        env = dict(zip(order, combo))
-        t = call(env)
-        log.append("(" + ",".join(map(str, t)) + ")")
-        if bool(body(t)) != sp.neg:
-            rows.add("(" + ",".join(str(env[i]) for i in order) + ")")
-    return "S log=[" + ",".join(sorted(log)) + "] rows=[" + ",".join(sorted(rows)) + "]"
+    outs = []
+    for world in [{}] + list(sp.hist):
+        log, rows = [], set()
+        for combo in itertools.product(*[sp.doms[i] for i in order]):
+            env = dict(zip(order, combo))
+            t = call(env, world)
+            log.append("(" + ",".join(map(str, t)) + ")")
+            if bool(body(t)) != sp.neg:
+                rows.add("(" + ",".join(str(env[i]) for i in order) + ")")
+        outs.append("S log=[" + ",".join(sorted(log)) + "] rows=[" + ",".join(sorted(rows)) + "]")
+    return " ;; ".join(outs)
 
 
 _ORACLE_CHECKED = 0
